@@ -519,7 +519,14 @@ impl Identity {
                 signature,
                 parent,
             } => {
-                debug_assert!(!self.revisions.contains_key(&entry));
+                // An operation can create at most one revision, since the revision is
+                // identified by the operation. Without this check (it used to be a
+                // `debug_assert!`), a second `Revision` action in the same operation would
+                // overwrite the first one in place -- even if it was just adopted as the
+                // current revision.
+                if self.revisions.contains_key(&entry) {
+                    return Err(ApplyError::Init("an operation may contain only one revision"));
+                }
 
                 let doc = repo.blob(blob)?;
                 let doc = Doc::from_blob(&doc)?;
